@@ -27,7 +27,8 @@ const (
 	c20GToken        = "${G}"
 )
 
-var c20Old = time.Date(2001, 9, 9, 1, 46, 40, 0, time.UTC)
+// (deliberately not the mtime written into generated tar headers)
+var c20Old = time.Date(2003, 3, 3, 3, 33, 33, 0, time.UTC)
 
 // c20Guard describes one per-case arena.
 //
